@@ -4,6 +4,7 @@ import Labella.Proofs.QPLemmas
 import Labella.Proofs.VpscLoops
 import Labella.Proofs.VpscCost
 import Labella.Proofs.VpscKKT
+import Labella.Proofs.VpscFuel
 import Mathlib.Algebra.Order.Field.Rat
 import Mathlib.Algebra.BigOperators.Group.List.Basic
 import Mathlib.Tactic.Ring
@@ -305,5 +306,97 @@ example : (Vpsc.solve 10 20 (Vpsc.init [(0, 1, 1), (0, 1, 1), (3, 1, 1)] [(0, 1,
     (Vpsc.lmState (Vpsc.solve 10 20 (Vpsc.init [(0, 1, 1), (0, 1, 1), (3, 1, 1)] [(0, 1, 2), (1, 2, 2)])).1).err = false ∧
     (∀ l ∈ Vpsc.multipliers (Vpsc.solve 10 20 (Vpsc.init [(0, 1, 1), (0, 1, 1), (3, 1, 1)] [(0, 1, 2), (1, 2, 2)])).1, 0 ≤ l) := by
   decide +kernel
+
+/-! ## fuel is immaterial: `err` can only come from the two open-ended loops (`satisfyLoop`, `solveLoop`)
+
+The model gives every recursion and loop a fuel argument and sets `err` when it runs out.  Proved in `Proofs/VpscFuel.lean`:
+* in a state that satisfies the invariants the tree traversals (`computeLm`, `findPath`, `isActiveDirectedPathBetween`,
+  `populateSplitBlock` inside `Block.split`) never exhaust their fuel `travFuel st = st.vs.size + 2` — the active graph is a forest,
+  so a traversal that never walks straight back follows a simple path, which has at most `vs.size` variables — and the split pass
+  `Blocks.split` never exhausts its fuel `list.size + 3` (the list it iterates over grows by two entries at most once):
+  `Vpsc.computeLm_noerr`, `Vpsc.findPath_noerr`, `Vpsc.isActiveDirectedPathBetween_noerr`, `Vpsc.blockSplit_noerr`,
+  `Vpsc.findMinLM_noerr`, `Vpsc.blocksSplit_noerr`, `Vpsc.satStep_noerr`, `Vpsc.lmState_noerr`;
+* a run that ended with `err = false` does not depend on the fuel it was given (pure fuel induction, no invariant). -/
+
+/-- (b) fuel monotonicity of `satisfy`, for ANY state: a pass that ended with `err = false` returns the very same state with any
+larger fuel; hence if it raises `err` with some fuel it raises it with every smaller fuel -/
+theorem satisfy_fuel_mono (sfuel : Nat) (st : Vpsc.St) :
+    ((Vpsc.satisfy sfuel st).err = false → ∀ sfuel', sfuel ≤ sfuel' → Vpsc.satisfy sfuel' st = Vpsc.satisfy sfuel st) ∧
+    ((Vpsc.satisfy sfuel st).err = true → ∀ sfuel', sfuel' ≤ sfuel → (Vpsc.satisfy sfuel' st).err = true) :=
+  ⟨Vpsc.satisfy_fuel_mono sfuel st, Vpsc.satisfy_err_antimono sfuel st⟩
+
+/-- **(b)** In a state that satisfies the invariants (`Inv2`, `Covered`, `err = false`), `err` after `satisfy sfuel` comes from the
+`while` loop of `satisfy` running out of its fuel and from nowhere else (no traversal, no `Block.split`, not the split pass):
+`satisfy sfuel` raises `err` if and only if the test of the `while` statement (`Vpsc.satCond`: the most violated constraint is
+violated by more than the tolerance and inactive) is still true at the start of each of the first `sfuel` iterations of the loop
+body (`Vpsc.satIter`, defined without any loop fuel).  When the test first fails at iteration `k`, every fuel `> k` returns the state
+of that iteration. -/
+theorem satisfy_err_only_from_loop (st : Vpsc.St) (h : Vpsc.Inv2 st) (hcov : Vpsc.Covered st none) (herr : st.err = false)
+    (sfuel : Nat) :
+    ((Vpsc.satisfy sfuel st).err = true ↔ ∀ k, k < sfuel → Vpsc.satCond (Vpsc.satIter k (Vpsc.satStart st)) = true) ∧
+    (∀ k, k < sfuel → (∀ j, j < k → Vpsc.satCond (Vpsc.satIter j (Vpsc.satStart st)) = true) →
+      Vpsc.satCond (Vpsc.satIter k (Vpsc.satStart st)) = false →
+      Vpsc.satisfy sfuel st = (Vpsc.satIter k (Vpsc.satStart st)).1) ∧
+    ((Vpsc.satisfy sfuel st).err = true → ∀ sfuel', sfuel' ≤ sfuel → (Vpsc.satisfy sfuel' st).err = true) ∧
+    ((Vpsc.satisfy sfuel st).err = false → ∀ sfuel', sfuel ≤ sfuel' → Vpsc.satisfy sfuel' st = Vpsc.satisfy sfuel st) :=
+  ⟨Vpsc.satisfy_err_iff sfuel st h hcov herr, fun k hk => Vpsc.satisfy_eq_iter sfuel st h hcov herr k hk,
+    Vpsc.satisfy_err_antimono sfuel st, Vpsc.satisfy_fuel_mono sfuel st⟩
+
+/-- **(c)** fuel monotonicity of `solve`, for ANY state: a run that ended with `err = false` returns the very same state and cost with
+any larger fuels (so every C05 theorem stated for "a run with `err = false`" speaks about THE result of the fuel-free algorithm);
+hence if it raises `err` it raises it with all smaller fuels -/
+theorem solve_fuel_mono (fuel sfuel : Nat) (st : Vpsc.St) :
+    ((Vpsc.solve fuel sfuel st).1.err = false →
+      ∀ fuel', fuel ≤ fuel' → ∀ sfuel', sfuel ≤ sfuel' → Vpsc.solve fuel' sfuel' st = Vpsc.solve fuel sfuel st) ∧
+    ((Vpsc.solve fuel sfuel st).1.err = true →
+      ∀ fuel', fuel' ≤ fuel → ∀ sfuel', sfuel' ≤ sfuel → (Vpsc.solve fuel' sfuel' st).1.err = true) :=
+  ⟨Vpsc.solve_fuel_mono fuel sfuel st, Vpsc.solve_err_antimono fuel sfuel st⟩
+
+/-- **(c), where `err` comes from.**  If `solve fuel sfuel` raises `err` from a state that satisfies the invariants, then either one of
+its `satisfy` passes — entered in a state that satisfies all invariants and has `err = false` — found the test of its `while` loop
+true at the start of each of its `sfuel` iterations, or the test of the `while` loop of `solve` (`|lastcost − cost| > 0.0001`) was
+true at the start of each of its `fuel` iterations. -/
+theorem solve_err_only_from_loops (fuel sfuel : Nat) (st : Vpsc.St) (h : Vpsc.Inv2 st) (hcov : Vpsc.Covered st none)
+    (herr : st.err = false) (he : (Vpsc.solve fuel sfuel st).1.err = true) :
+    (∃ st', Vpsc.Inv2 st' ∧ Vpsc.Covered st' none ∧ st'.err = false ∧
+        ∀ k, k < sfuel → Vpsc.satCond (Vpsc.satIter k (Vpsc.satStart st')) = true) ∨
+    (∀ k, k < fuel → Vpsc.solveCond (Vpsc.solveIter sfuel k (Vpsc.solveStart sfuel st)) = true) :=
+  Vpsc.solve_err_only_from_loops fuel sfuel st h hcov herr he
+
+theorem init_err (vars : List (Rat × Rat × Rat)) (cons : List (Nat × Nat × Rat)) : (Vpsc.init vars cons).err = false := by
+  rw [Vpsc.FrameAux.init_eq, Vpsc.FrameAux.initBlocks_eq]
+  refine Vpsc.foldl_invS (fun acc : Vpsc.St => acc.err = false) _ _ _ rfl ?_
+  intro acc i _ hacc
+  exact hacc
+
+/-- the two statements for the solver's initial state: the result of `solve` on an instance does not depend on the fuels once they
+suffice, and `err` on an instance can only mean that one of the two `while` loops was still running when its fuel ran out -/
+theorem vpsc_solve_fuel_immaterial (vars : List (Rat × Rat × Rat)) (cons : List (Nat × Nat × Rat))
+    (hidx : ∀ c ∈ cons, c.1 < vars.length ∧ c.2.1 < vars.length) (hs : ∀ v ∈ vars, v.2.2 ≠ 0) (fuel sfuel : Nat) :
+    ((Vpsc.solve fuel sfuel (Vpsc.init vars cons)).1.err = false →
+      ∀ fuel', fuel ≤ fuel' → ∀ sfuel', sfuel ≤ sfuel' →
+        Vpsc.solve fuel' sfuel' (Vpsc.init vars cons) = Vpsc.solve fuel sfuel (Vpsc.init vars cons)) ∧
+    ((Vpsc.solve fuel sfuel (Vpsc.init vars cons)).1.err = true →
+      (∃ st', Vpsc.Inv2 st' ∧ Vpsc.Covered st' none ∧ st'.err = false ∧
+          ∀ k, k < sfuel → Vpsc.satCond (Vpsc.satIter k (Vpsc.satStart st')) = true) ∨
+      (∀ k, k < fuel → Vpsc.solveCond (Vpsc.solveIter sfuel k (Vpsc.solveStart sfuel (Vpsc.init vars cons))) = true)) := by
+  obtain ⟨hI2, hcov⟩ := Vpsc.init_inv2 vars cons hidx hs
+  exact ⟨Vpsc.solve_fuel_mono fuel sfuel _,
+    Vpsc.solve_err_only_from_loops fuel sfuel _ hI2 hcov (init_err vars cons)⟩
+
+/-- the hypothesis `herr2` of `vpsc_solve_optimal` / `vpsc_solve_near_optimal` (recomputing the multipliers raises no `err`) follows
+from `herr`: the traversals have enough fuel -/
+theorem vpsc_lmState_noerr (vars : List (Rat × Rat × Rat)) (cons : List (Nat × Nat × Rat))
+    (hidx : ∀ c ∈ cons, c.1 < vars.length ∧ c.2.1 < vars.length) (hs : ∀ v ∈ vars, v.2.2 ≠ 0) (fuel sfuel : Nat)
+    (herr : (Vpsc.solve fuel sfuel (Vpsc.init vars cons)).1.err = false) :
+    (Vpsc.lmState (Vpsc.solve fuel sfuel (Vpsc.init vars cons)).1).err = false := by
+  obtain ⟨hI2, hcov⟩ := Vpsc.init_inv2 vars cons hidx hs
+  obtain ⟨h2, _, _, _, _⟩ := Vpsc.solve_spec2' fuel sfuel _ hI2 hcov herr
+  exact Vpsc.lmState_noerr _ h2.inv h2.list herr
+
+/-- non-vacuity: on the cyclic two-variable instance, `solve 10 10` ends without `err`, hence every larger fuel returns the same result;
+with `sfuel = 0` the `satisfy` loop is cut off at once and `err` is raised -/
+example : (Vpsc.solve 10 10 (Vpsc.init [(0, 1, 1), (0, 1, 1)] [(0, 1, 1), (1, 0, 1)])).1.err = false ∧
+    (Vpsc.solve 10 0 (Vpsc.init [(0, 1, 1), (0, 1, 1)] [(0, 1, 1), (1, 0, 1)])).1.err = true := by decide +kernel
 
 end Labella.C05
